@@ -58,36 +58,43 @@ Definition remove_child (s : node) (k : key) : option node :=
   end.
 
 (* ---------- filter_nodes (composed.py 162-187) ---------- *)
+(* kept children, in order; list elements that follow a removed one are moved down through _set, i.e. re-adopted *)
+Fixpoint shift_kept (kw : ckw) (islist : bool) (l : list (key * node * bool)) (moved : bool) : list (key * node) :=
+  match l with
+  | [] => []
+  | (kk, c, true) :: r => (kk, if (moved && islist)%bool then adopt kw c else c) :: shift_kept kw islist r moved
+  | (_, _, false) :: r => shift_kept kw islist r true
+  end.
+
+Definition has_children (n : node) : bool := match n with Comp _ _ _ (_ :: _) => true | _ => false end.
+
+(* one child: (key, filtered child, keep?) and the paths removed below it / itself *)
+Definition filter_child (rec : path -> node -> node * list path) (cond : path -> node -> bool) (pre : path) (kc : key * node)
+  : (key * node * bool) * list path :=
+  let cp := pre ++ [fst kc] in
+  let keep0 := cond cp (snd kc) in
+  let '(c', rem_c) := match snd kc with
+                      | Comp _ _ _ _ => rec cp (snd kc)
+                      | Leaf _ _ _ => (snd kc, [])
+                      end in
+  let keep := (keep0 || has_children c')%bool in
+  ((fst kc, c', keep), rem_c ++ (if keep then [] else [cp])).
+
 (* cond gets the absolute path of the child and the child; returns the filtered node and the removed paths *)
 Fixpoint filter_nodes (cond : path -> node -> bool) (pre : path) (n : node) : node * list path :=
   match n with
   | Leaf _ _ _ => (n, [])
   | Comp k f x ch =>
-    let kw := child_kwargs n in
-    (* go returns: kept children (in order), removed paths of nested calls ++ own, and whether something was removed before (for re-adoption of shifted list elements) *)
     let res :=
       (fix go (l : list (key * node)) : list (key * node * bool) * list path :=
          match l with
          | [] => ([], [])
-         | (kk, c) :: r =>
-           let cp := pre ++ [kk] in
-           let keep0 := cond cp c in
-           let '(c', rem_c) := match c with
-                               | Comp _ _ _ _ => filter_nodes cond cp c
-                               | Leaf _ _ _ => (c, [])
-                               end in
-           let keep := (keep0 || match c' with Comp _ _ _ (_ :: _) => true | _ => false end)%bool in
+         | kc :: r =>
+           let '(m, rm) := filter_child (filter_nodes cond) cond pre kc in
            let '(rest, rem_r) := go r in
-           ((kk, c', keep) :: rest, rem_c ++ rem_r ++ (if keep then [] else [cp]))
+           (m :: rest, rm ++ rem_r)
          end) ch in
-    let marked := fst res in
-    let kept :=
-      (fix shift (l : list (key * node * bool)) (moved : bool) : list (key * node) :=
-         match l with
-         | [] => []
-         | (kk, c, true) :: r => (kk, if (moved && is_listk k)%bool then adopt kw c else c) :: shift r moved
-         | (_, _, false) :: r => shift r true
-         end) marked false in
+    let kept := shift_kept (child_kwargs n) (is_listk k) (fst res) false in
     (Comp k f x (if is_listk k then renum_from 0 kept else kept), snd res)
   end.
 
@@ -119,107 +126,125 @@ Definition clear_children (n : node) : node := match n with Comp k f x _ => Comp
 Definition who_of (promoted : bool) (if_not : who) (if_promoted : who) : who := if promoted then if_promoted else if_not.
 
 (* ---------- the recursive merge ---------- *)
-Fixpoint on_merge (fuel : nat) (p : path) (s o : node) {struct fuel} : res (node * who) :=
-  match fuel with
-  | O => Err EFuel p
-  | S fu =>
-    (* ComposedNode.on_merge_impl, after the class-specific part *)
-    let comp_merge (s o : node) : res (node * who) :=
-      match o with
-      | Leaf _ _ _ => Ok (leaf_merge s o)
-      | Comp ko fo xo cho =>
-        let early :=
-          if delete o then
-            let '(s', removed) := filter_nodes
-                                    (fun ap n => has_priority_over n (first_not_missing o (skipn (length p) ap)) false) p s in
-            if (match children s' with [] => true | _ => false end && has_priority_over o s' true)%bool then
-              if require_all_new o p (p :: removed) true then
-                let '(r, promoted) := replace_other o s' true in
-                (s', Some (Ok (r, who_of promoted Other Self)))
-              else (s', Some (Err EMerge p))
-            else (s', None)
-          else (s, None) in
-        match early with
-        | (_, Some r) => r
-        | (s1, None) =>
-          do s2 <- fold_left
-            (fun (acc : res node) (kv : key * node) =>
-               do cur <- acc;
-               let '(k, v) := kv in
-               match get_child cur k with
-               | None =>
-                 if require_all_new v (p ++ [k]) [] true then
-                   match set_child cur k v with Some c => Ok c | None => Err EMerge p end
-                 else Err EMerge p
-               | Some c =>
-                 do nr <- on_merge fu (p ++ [k]) c v;
-                 let '(n, w) := nr in
-                 if is_comp c then
-                   if (negb (truthy n) && negb (has_priority_over n v false) && explicit_delete v)%bool then
-                     match remove_child cur k with Some c' => Ok c' | None => Err EMerge p end
-                   else match w with
-                        | Other => match set_child cur k n with Some c' => Ok c' | None => Err EMerge p end
-                        | Self => Ok (put_child cur k n)
-                        end
-                 else
-                   match w with
-                   | Other =>
-                     if require_all_new n (p ++ [k]) [] false then
-                       if (negb (truthy n) && explicit_delete n)%bool then
-                         match remove_child cur k with Some c' => Ok c' | None => Err EMerge p end
-                       else match set_child cur k n with Some c' => Ok c' | None => Err EMerge p end
-                     else Err EMerge p
-                   | Self => Ok (put_child cur k n)
-                   end
-               end)
-            cho (Ok s1);
-          let '(r, promoted) := if has_priority_over o s2 true then replace_self s2 o true else replace_other s2 o true in
-          Ok (r, who_of promoted Self Other)
+(* [rec] is the recursive call child.on_merge(path + [key], value) *)
+Section MergeRules.
+  Variable rec : path -> node -> node -> res (node * who).
+  (* absolute paths at which the newer node IS the older node object (left behind by !clear) *)
+  Variable aliases : list path.
+
+  (* one iteration of the loop over the newer node's children (composed.py 305-325) *)
+  Definition merge_step (p : path) (acc : res node) (kv : key * node) : res node :=
+    do cur <- acc;
+    let '(k, v) := kv in
+    match get_child cur k with
+    | None =>
+      if require_all_new v (p ++ [k]) [] true then
+        match set_child cur k v with Some c => Ok c | None => Err EMerge p end
+      else Err EMerge p
+    | Some c0 =>
+      let al := path_in (p ++ [k]) aliases in
+      let c := if al then v else c0 in   (* same object: it carries the flags of its last adoption (by the newer parent) *)
+      do nr <- rec (p ++ [k]) c v;
+      let '(n, w0) := nr in
+      let w := if al then Self else w0 in
+      if is_comp c then
+        if (negb (truthy n) && negb (has_priority_over n v false) && explicit_delete v)%bool then
+          match remove_child cur k with Some c' => Ok c' | None => Err EMerge p end
+        else match w with
+             | Other => match set_child cur k n with Some c' => Ok c' | None => Err EMerge p end
+             | Self => Ok (put_child cur k n)
+             end
+      else
+        match w with
+        | Other =>
+          if require_all_new n (p ++ [k]) [] false then
+            if (negb (truthy n) && explicit_delete n)%bool then
+              match remove_child cur k with Some c' => Ok c' | None => Err EMerge p end
+            else match set_child cur k n with Some c' => Ok c' | None => Err EMerge p end
+          else Err EMerge p
+        | Self => Ok (put_child cur k n)
         end
-      end in
+    end.
+
+  (* the deleting branch (composed.py 288-299): returns the pruned older node and, possibly, the final result *)
+  Definition prune (p : path) (s o : node) : node * option (res (node * who)) :=
+    if delete o then
+      let '(s', removed) := filter_nodes
+                              (fun ap n => has_priority_over n (first_not_missing o (skipn (length p) ap)) false) p s in
+      if (match children s' with [] => true | _ => false end && has_priority_over o s' true)%bool then
+        if require_all_new o p (p :: removed) true then
+          let '(r, promoted) := replace_other o s' true in
+          (s', Some (Ok (r, who_of promoted Other Self)))
+        else (s', Some (Err EMerge p))
+      else (s', None)
+    else (s, None).
+
+  (* ComposedNode.on_merge_impl (composed.py 284-332) *)
+  Definition comp_merge (p : path) (s o : node) : res (node * who) :=
+    match o with
+    | Leaf _ _ _ => Ok (leaf_merge s o)
+    | Comp ko fo xo cho =>
+      match prune p s o with
+      | (_, Some r) => r
+      | (s1, None) =>
+        do s2 <- fold_left (merge_step p) cho (Ok s1);
+        let '(r, promoted) := if has_priority_over o s2 true then replace_self s2 o true else replace_other s2 o true in
+        Ok (r, who_of promoted Self Other)
+      end
+    end.
+
+  (* FunctionNode.on_merge_impl (function.py 50-76) *)
+  Definition func_merge (p : path) (s o : node) : res (node * who) :=
+    match s with
+    | Comp ks fs xs chs =>
+      if is_str_leaf o then
+        if has_priority_over o s true then
+          let s1 := clear_children (set_x s (match o with Leaf _ _ v => v | _ => xs end)) in
+          Ok (fst (replace_self s1 o false), Self)
+        else Ok (fst (replace_other s o false), Self)
+      else
+        let new_func := match node_x o with Some x => negb (scalar_eqb xs x) | None => false end in
+        if new_func then
+          if negb (has_priority_over o s true) then Ok (fst (replace_other s o false), Self)
+          else
+            let s1 := if delete o then clear_children s else s in
+            comp_merge p (set_x s1 (match node_x o with Some x => x | None => xs end)) o
+        else comp_merge p s o
+    | _ => comp_merge p s o
+    end.
+
+  (* a dict merged onto a list: every key must be a valid (strict) index (list.py 133-143) *)
+  Definition dict_keys_ok (len : Z) (cho : list (key * node)) : bool :=
+    forallb (fun kv => match validate_index len (fst kv) true with IdxOk _ => true | _ => false end) cho.
+
+  (* the pre-filter of the newer node (list.py 145-152) *)
+  Definition keep_if_exists (s : node) (rp : path) (n : node) : bool :=
+    (negb (delete n) || has_priority_over n (first_not_missing s rp) true)%bool.
+
+  (* ConfigList.on_merge_impl (list.py 131-155) *)
+  Definition list_merge (p : path) (s o : node) : res (node * who) :=
+    match o with
+    | Comp ko _ _ cho =>
+      if (negb (is_listk ko) && negb (dict_keys_ok (zlen (children s)) cho))%bool then Err EMerge p
+      else comp_merge p s (fst (filter_nodes (keep_if_exists s) [] o))
+    | Leaf _ _ _ => comp_merge p s o
+    end.
+
+  (* dispatch on the class of the older node *)
+  Definition dispatch (p : path) (s o : node) : res (node * who) :=
     match s with
     | Leaf _ _ _ => Ok (leaf_merge s o)
-    | Comp ks fs xs chs =>
-      if is_funck ks then
-        (* FunctionNode.on_merge_impl *)
-        if is_str_leaf o then
-          if has_priority_over o s true then
-            let s1 := clear_children (set_x s (match o with Leaf _ _ v => v | _ => xs end)) in
-            Ok (fst (replace_self s1 o false), Self)
-          else Ok (fst (replace_other s o false), Self)
-        else
-          let new_func := match node_x o with Some x => negb (scalar_eqb xs x) | None => false end in
-          if new_func then
-            if negb (has_priority_over o s true) then Ok (fst (replace_other s o false), Self)
-            else
-              let s1 := if delete o then clear_children s else s in
-              comp_merge (set_x s1 (match node_x o with Some x => x | None => xs end)) o
-          else comp_merge s o
-      else if is_listk ks then
-        (* ConfigList.on_merge_impl *)
-        let bad_index :=
-          match o with
-          | Comp ko _ _ cho =>
-            if is_listk ko then None
-            else (* a dict: every key must be a valid strict index; a non-int key raises TypeError *)
-              let checks := map (fun kv => validate_index (zlen chs) (fst kv) true) cho in
-              if existsb (fun r => match r with IdxTypeErr => true | _ => false end) checks then Some tt
-              else if existsb (fun r => match r with IdxRangeErr => true | _ => false end) checks then Some tt
-              else None
-          | _ => None
-          end in
-        match bad_index with
-        | Some _ => Err EMerge p
-        | None =>
-          let o' := match o with
-                    | Comp _ _ _ _ =>
-                      fst (filter_nodes (fun rp n => (negb (delete n) || has_priority_over n (first_not_missing s rp) true)%bool) [] o)
-                    | _ => o
-                    end in
-          comp_merge s o'
-        end
-      else comp_merge s o
-    end
+    | Comp ks _ _ _ =>
+      if is_funck ks then func_merge p s o
+      else if is_listk ks then list_merge p s o
+      else comp_merge p s o
+    end.
+End MergeRules.
+
+Fixpoint on_merge (aliases : list path) (fuel : nat) (p : path) (s o : node) {struct fuel} : res (node * who) :=
+  match fuel with
+  | O => Err EFuel p
+  | S fu => dispatch (on_merge aliases fu) aliases p s o
   end.
 
 (* ---------- premerge (state passing over the older tree [into]) ---------- *)
@@ -281,7 +306,7 @@ Definition extend_node (n : node) (vals : list (key * node)) : option node :=
 
 (* on_premerge for a whole (sub)tree; [into] is None for the first stage.
    Returns the possibly replaced node and the updated older tree. *)
-Fixpoint on_premerge (e : penv) (p : path) (n : node) (into : option node) {struct n} : res (node * option node * bool) :=
+Fixpoint on_premerge (e : penv) (p : path) (n : node) (into : option node) {struct n} : res (node * option node * bool * list path) :=
   (* the bool says: a different object is returned (the parent must set_child it) *)
   match n with
   | Leaf LPrev _ (SStr z) =>
@@ -292,7 +317,7 @@ Fixpoint on_premerge (e : penv) (p : path) (n : node) (into : option node) {stru
       | None => Err EPremerge p
       | Some tp =>
         match remove_node root tp with
-        | Some (Some (root', removed)) => Ok (removed, Some root', true)
+        | Some (Some (root', removed)) => Ok (removed, Some root', true, [])
         | _ => Err EPremerge p
         end
       end
@@ -304,20 +329,20 @@ Fixpoint on_premerge (e : penv) (p : path) (n : node) (into : option node) {stru
       match get_node root p with
       | Some (Comp k f x _) =>
         let cleared := Comp k f x [] in
-        Ok (cleared, Some (put_node root p cleared), true)
+        Ok (cleared, Some (put_node root p cleared), true, [p])
       | _ => Err EPremerge p   (* missing: KeyError; leaf: AttributeError on clear() *)
       end
     end
-  | Leaf _ _ _ => Ok (n, into, false)
+  | Leaf _ _ _ => Ok (n, into, false, [])
   | Comp CAppend f x chs =>
     (* note: an !append node's own children are NOT premerged (on_premerge_impl is overridden) *)
     match into with
-    | None => Ok (fresh_list (Some true) chs, None, true)
+    | None => Ok (fresh_list (Some true) chs, None, true, [])
     | Some root =>
       match remove_node root p with
       | Some (Some (root', target)) =>
         match extend_node target chs with
-        | Some t' => Ok (t', Some root', true)
+        | Some t' => Ok (t', Some root', true, [])
         | None => Err EPremerge p
         end
       | _ => Err EPremerge p
@@ -325,36 +350,36 @@ Fixpoint on_premerge (e : penv) (p : path) (n : node) (into : option node) {stru
     end
   | Comp CExtend f x chs =>
     match into with
-    | None => Ok (fresh_list (Some true) chs, None, true)
+    | None => Ok (fresh_list (Some true) chs, None, true, [])
     | Some root =>
       match get_node root p with
       | Some target =>
         match extend_node target chs with
         | Some t' =>
           match remove_node root p with
-          | Some (Some (root', _)) => Ok (t', Some root', true)
+          | Some (Some (root', _)) => Ok (t', Some root', true, [])
           | _ => Err EPremerge p
           end
-        | None => Ok (fresh_list (Some true) chs, into, true)
+        | None => Ok (fresh_list (Some true) chs, into, true, [])
         end
-      | None => Ok (fresh_list (Some true) chs, into, true)
+      | None => Ok (fresh_list (Some true) chs, into, true, [])
       end
     end
   | Comp k f x chs =>
     (* map_nodes over the direct children; replaced children are set_child-ed after the loop *)
     let step :=
-      (fix go (l : list (key * node)) (into : option node) : res (list (key * node * bool) * option node) :=
+      (fix go (l : list (key * node)) (into : option node) : res (list (key * node * bool) * option node * list path) :=
          match l with
-         | [] => Ok ([], into)
+         | [] => Ok ([], into, [])
          | (kk, c) :: r =>
            do x1 <- on_premerge e (p ++ [kk]) c into;
-           let '(c', into', changed) := x1 in
+           let '(c', into', changed, al1) := x1 in
            do x2 <- go r into';
-           let '(rest, into'') := x2 in
-           Ok ((kk, c', changed) :: rest, into'')
+           let '(rest, into'', al2) := x2 in
+           Ok ((kk, c', changed) :: rest, into'', al1 ++ al2)
          end) chs into in
     do stp <- step;
-    let '(marked, into') := stp in
+    let '(marked, into', als) := stp in
     (* children that were not replaced were mutated in place *)
     let n1 := Comp k f x (map (fun kcb => (fst (fst kcb), snd (fst kcb))) marked) in
     let n2 := fold_left (fun (acc : option node) (kcb : key * node * bool) =>
@@ -362,7 +387,7 @@ Fixpoint on_premerge (e : penv) (p : path) (n : node) (into : option node) {stru
                            | Some cur => if snd kcb then set_child cur (fst (fst kcb)) (snd (fst kcb)) else Some cur
                            | None => None end) marked (Some n1) in
     match n2 with
-    | Some r => Ok (r, into', false)
+    | Some r => Ok (r, into', false, als)
     | None => Err EPremerge p
     end
   end.
@@ -370,9 +395,9 @@ Fixpoint on_premerge (e : penv) (p : path) (n : node) (into : option node) {stru
 (* root.merge(other) *)
 Definition merge2 (e : penv) (root other : node) : res node :=
   do x <- on_premerge e [] other (Some root);
-  let '(other', root', _) := x in
+  let '(other', root', _, als) := x in
   let root1 := match root' with Some r => r | None => root end in
-  do r <- on_merge (nsize root1 + nsize other' + 1) [] root1 other';
+  do r <- on_merge als (nsize root1 + nsize other' + 1) [] root1 other';
   Ok (fst r).
 
 Definition is_dictk (n : node) : bool := match n with Comp k _ _ _ => negb (is_listk k) | _ => false end.
@@ -384,7 +409,7 @@ Definition flatten (e : penv) (stages : list node) : res node :=
   | s0 :: rest =>
     if forallb is_dictk stages then
       do x <- on_premerge e [] s0 None;
-      let '(s0', _, _) := x in
+      let '(s0', _, _, _) := x in
       if require_all_new s0' [] [] true then
         fold_left (fun acc st => do root <- acc; merge2 e root st) rest (Ok s0')
       else Err EMerge []
